@@ -14,7 +14,7 @@ RULE = (
 PROBES = [
     "decimation:gulp!=nchans", "decimation:gulp-rounded-up", "decimation:remainder-block<tfactor", "decimation:exact-integer-means", "multi-batch-extract",
     "extract_chans:8bit-to-32bit-tim", "sub-range-before-EOF", ">=3-blocks", "two-gulps-compared", "subband:maxdelay>0",
-    "subband:gulp-raised-to-2maxdelay", "multi-file", "sub-byte", "W3-raised", "R-fault-raised", "zerodm:in-range", "pre-history-call", "second-window-on-same-reader", "big-blocks", "default-gulp", "earlier-products-rechecked", "earlier-session",
+    "subband:gulp-raised-to-2maxdelay", "multi-file", "sub-byte", "W3-raised", "R-fault-raised", "zerodm:in-range", "pre-history-call", "second-window-on-same-reader", "big-blocks", "default-gulp", "earlier-products-rechecked", "earlier-session", "reentrant-call-inside-allocator",
 ] + [f"ok:{n}" for n in ["invert_freq", "apply_channel_mask", "extract_samps", "extract_chans", "extract_bands", "downsample", "subband", "remove_zerodm"]]
 COMPONENTS = {
     "real": ["sigpyproc.base.Filterbank streaming transforms", "sigpyproc.readers.FilReader.read_plan", "numba kernels (compiled, 1 thread)",
